@@ -453,6 +453,11 @@ class Inliner:
         if self.known is None:
             return None
         f = call.func
+        # a function defined inside the function being processed (a closure): its free names are read at the time of the call
+        # either way, so the call can be replaced by the body
+        if isinstance(f, ast.Name) and f.id in getattr(self, "local_defs", {}):
+            fn = self.local_defs[f.id]
+            return (copy.deepcopy(fn), "static", None) if _eligible(fn) else None
         if isinstance(f, ast.Name) and is_private(f.id) and f.id in self.mod_funcs and f.id not in self.known:
             fn = self.mod_funcs[f.id]
             return (fn, "static", None) if _eligible(fn) else None
@@ -764,13 +769,18 @@ class Inliner:
             return self.tree
         for st in self.tree.body:
             if isinstance(st, ast.FunctionDef):
+                self.local_defs = _nested_defs(st)
                 st.body = self.block(st.body, None, set())
+                _drop_dead_nested(st, self.local_defs)
             elif isinstance(st, ast.ClassDef):
                 for m in st.body:
                     if isinstance(m, ast.FunctionDef):
                         k = _kind(m)
                         names = {m.args.args[0].arg} if (k in ("instance", "class") and m.args.args) else set()
+                        self.local_defs = _nested_defs(m)
                         m.body = self.block(m.body, st.name, names)
+                        _drop_dead_nested(m, self.local_defs)
+        self.local_defs = {}
         self.drop_unused()
         ast.fix_missing_locations(self.tree)
         return self.tree
@@ -798,6 +808,47 @@ class Inliner:
         for st in self.tree.body:
             if isinstance(st, ast.ClassDef):
                 st.body = [m for m in st.body if keep(m, st.name)] or [ast.Pass()]
+
+
+def _nested_defs(fn):
+    """functions defined directly in the blocks of fn (not in nested classes / functions), bound exactly once"""
+    out, count = {}, {}
+    todo = list(fn.body)
+    while todo:
+        st = todo.pop()
+        if isinstance(st, ast.FunctionDef):
+            count[st.name] = count.get(st.name, 0) + 1
+            out[st.name] = st
+            continue
+        if isinstance(st, (ast.ClassDef, ast.AsyncFunctionDef)):
+            continue
+        for f in ("body", "orelse", "finalbody"):
+            b = getattr(st, f, None)
+            if isinstance(b, list) and b and isinstance(b[0], ast.stmt):
+                todo.extend(b)
+        for h in getattr(st, "handlers", []) or []:
+            todo.extend(h.body)
+    stored = {n.id for n in ast.walk(fn) if isinstance(n, ast.Name) and not isinstance(n.ctx, ast.Load)}
+    return {k: v for k, v in out.items() if count[k] == 1 and k not in stored and not v.decorator_list}
+
+
+def _drop_dead_nested(fn, defs):
+    if not defs:
+        return
+    used = {n.id for n in ast.walk(fn) if isinstance(n, ast.Name) and isinstance(n.ctx, ast.Load)}
+
+    def prune(stmts):
+        out = []
+        for st in stmts:
+            if isinstance(st, ast.FunctionDef) and st.name in defs and st.name not in used and st.name in STATS["helpers"]:
+                continue
+            for f in ("body", "orelse", "finalbody"):
+                b = getattr(st, f, None)
+                if isinstance(b, list) and b and isinstance(b[0], ast.stmt) and not isinstance(st, (ast.FunctionDef, ast.ClassDef)):
+                    setattr(st, f, prune(b) or [ast.copy_location(ast.Pass(), st)])
+            out.append(st)
+        return out
+    fn.body = prune(fn.body) or [ast.Pass()]
 
 
 def _ends_all(body):
@@ -839,6 +890,12 @@ def has_new_helpers(tree, modname, known):
                     omod, oname = imported[f.id]
                     if omod in PKG and oname not in known.get(omod, set()) and any(isinstance(c, ast.FunctionDef) and c.name == oname for c in PKG[omod].body):
                         return True
+    for fn in ast.walk(tree):
+        if isinstance(fn, ast.FunctionDef):
+            for inner in ast.walk(fn):
+                if isinstance(inner, ast.FunctionDef) and inner is not fn and any(
+                        isinstance(c, ast.Call) and isinstance(c.func, ast.Name) and c.func.id == inner.name for c in ast.walk(fn)):
+                    return True          # a closure that its enclosing function calls
     for st in tree.body:
         if isinstance(st, ast.FunctionDef) and is_private(st.name) and st.name not in kn:
             return True
